@@ -16,17 +16,24 @@ DAYS = list(Days)
 
 def enc_impl(form, l):
     try:
-        if form == 0: return "ok " + tools.weekdays_to_hexadecimal(DAYS[l[0]])
-        if form == 1: return "ok " + tools.weekdays_to_hexadecimal({DAYS[i] for i in l})
-        if form == 3: return "ok " + tools.weekdays_to_hexadecimal(tuple(DAYS[i] for i in l))
-        if form == 4: return "ok " + tools.weekdays_to_hexadecimal(frozenset(DAYS[i] for i in l))
-        return "ok " + tools.weekdays_to_hexadecimal([DAYS[i] for i in l])
+        if form == 0: return lib.ok(tools.weekdays_to_hexadecimal(DAYS[l[0]]))
+        if form == 1: return lib.ok(tools.weekdays_to_hexadecimal({DAYS[i] for i in l}))
+        if form == 3: return lib.ok(tools.weekdays_to_hexadecimal(tuple(DAYS[i] for i in l)))
+        if form == 4: return lib.ok(tools.weekdays_to_hexadecimal(frozenset(DAYS[i] for i in l)))
+        return lib.ok(tools.weekdays_to_hexadecimal([DAYS[i] for i in l]))
     except Exception: return "raised"
+
+
+def days_text(got):
+    """what the decoder handed back, as text: the day numbers of a set of days, or whatever else it was"""
+    try: return "ok " + "".join(str(i) for i in sorted(DAYS.index(d) for d in got))
+    except Exception: return "ok " + repr(got)[:60]
 
 
 def dec_impl(n):
-    try: return "ok " + "".join(str(i) for i in sorted(DAYS.index(d) for d in tools.bit_summary_to_days(n)))
+    try: got = tools.bit_summary_to_days(n)
     except Exception: return "raised"
+    return days_text(got)
 
 
 def thread_call(kind, a, b=None):
@@ -90,7 +97,7 @@ def run(tier, rnd, out):
         for mk in (set, list):
             obj = mk(DAYS[i] for i in l); before = list(obj) if mk is list else set(obj)
             def enc(o):
-                try: return "ok " + tools.weekdays_to_hexadecimal(o)
+                try: return lib.ok(tools.weekdays_to_hexadecimal(o))
                 except Exception: return "raised"
             a = enc(obj); b = enc(obj)
             same.append(a if (a == b and (list(obj) if mk is list else set(obj)) == before) else "first %s, again %s, argument now %s" % (a, b, sorted(DAYS.index(d) for d in obj)))
@@ -126,13 +133,14 @@ def run(tier, rnd, out):
     lib.differential(out, "encode-with-the-parameter-named", [{"form": f, "days": l} for f, l in sel], [kw(f, l) for f, l in sel], lib.run_model([lib.req("weekdays", f, l) for f, l in sel]),
                      lib.run_model([lib.req("weekdays_spec", f, l) for f, l in sel]), lambda c: "weekdays_to_hexadecimal(days=%s of %s)" % (["single day", "set", "list"][c["form"]], c["days"]), sample=lambda c: c)
     def dkw(n):
-        try: return "ok " + "".join(str(i) for i in sorted(DAYS.index(d) for d in tools.bit_summary_to_days(sum_weekdays_bit=n)))
+        try: got = tools.bit_summary_to_days(sum_weekdays_bit=n)
         except Exception: return "raised"
+        return days_text(got)
     lib.differential(out, "decode-with-the-parameter-named", [{"mask": n} for n in ms], [dkw(n) for n in ms], lib.run_model([lib.req("bitsum", n) for n in ms]),
                      lib.run_model([lib.req("bitsum_spec", n) for n in ms]), lambda c: "bit_summary_to_days(sum_weekdays_bit=%d)" % c["mask"], sample=lambda c: c)
     # ... and the other way: the decoder's own result handed to the encoder as it comes (whatever container type it is)
     def back(m):
-        try: return "ok " + tools.weekdays_to_hexadecimal(tools.bit_summary_to_days(m))
+        try: return lib.ok(tools.weekdays_to_hexadecimal(tools.bit_summary_to_days(m)))
         except Exception as e: return "raised " + type(e).__name__
     evens = list(range(2, 255, 2))
     lib.differential(out, "encode-after-decode", [{"mask": m} for m in evens], [back(m) for m in evens], None, ["ok %02x" % m for m in evens],
